@@ -514,6 +514,20 @@ func TestC11Blocks(t *testing.T) {
 			{"Distinct", func(qf qframe.QFrame) string {
 				return multiset(qf.Distinct(groupby.Columns("i1", "b1")).Select("i1", "b1"))
 			}},
+			{"Equals", func(qf qframe.QFrame) string {
+				// against itself re-sorted, against a sibling that differs in one column, and in three columns
+				same := qf.Sort(qframe.Order{Column: "id"}).Sort(qframe.Order{Column: "id", Reverse: true})
+				if qf.Len() > 0 && qf.MustIntView("id").ItemAt(0) < qf.MustIntView("id").ItemAt(qf.Len()-1) {
+					same = same.Sort(qframe.Order{Column: "id"})
+				}
+				one := qf.Apply(qframe.Instruction{Fn: hx.FloatToFloat, DstCol: "f1", SrcCol1: "f1"})
+				three := qf.Apply(qframe.Instruction{Fn: hx.IntToInt, DstCol: "i2", SrcCol1: "i2"}, qframe.Instruction{Fn: hx.FloatToFloat, DstCol: "f1", SrcCol1: "f1"},
+					qframe.Instruction{Fn: hx.StrToStr, DstCol: "s1", SrcCol1: "s1"})
+				e0, r0 := qf.Equals(same)
+				e1, r1 := qf.Equals(one)
+				e3, r3 := qf.Equals(three)
+				return fmt.Sprint(e0, r0, e1, r1, e3, r3)
+			}},
 			{"ToJSON+ToCSV", func(qf qframe.QFrame) string {
 				var a, b bytes.Buffer
 				_ = qf.ToJSON(&a)
